@@ -166,7 +166,7 @@ class ResultSet(dict[str, dict[Path, list[Result]]]):
     def __or__(self, other):
         result = ResultSet(super().__or__(other))
         for k in self.keys() | other.keys():
-            result[k] = list_dict_or(self[k], other[k])
+            result[k] = list_dict_or(self.get(k, {}), other.get(k, {}))
         return result
 
 
@@ -175,5 +175,5 @@ def list_dict_or(
 ) -> dict[Path, list[Any]]:
     result_dict = other | dictionary
     for k in other.keys() | dictionary.keys():
-        result_dict[k] = dictionary[k] + other[k]
+        result_dict[k] = dictionary.get(k, []) + other.get(k, [])
     return result_dict
